@@ -4,7 +4,8 @@
    generated converters of C01. Property theorems only, each closed by `exact` + Print Assumptions. *)
 From Coq Require Import Reals Lra QArith ZArith String List Bool.
 From PG Require Import Lib.Num Lib.Py Gen.UnitsGen1 Units.AdsOracle Gen.UnitsGen2 Units.UnitsSpec Units.LoadingPhys Units.C01Theorems
-  Iso.IsoState Gen.IsoGen Iso.IsoSpec Iso.ConvPressure Iso.ConvLoading Iso.ConvMaterial Iso.ConvMaterialFrac Iso.C02Theorems.
+  Iso.IsoState Gen.IsoGen Iso.IsoSpec Iso.ConvPressure Iso.ConvLoading Iso.ConvMaterial Iso.ConvMaterialFrac Iso.C02Theorems
+  Iso.C02Strings Iso.C02GenSteps Iso.C02General.
 Import ListNotations.
 Open Scope R_scope.
 
@@ -73,8 +74,8 @@ Theorem combined_conversion_is_sequence : forall (s : iso RNum) pm pu lb lu mb m
 Proof. exact convert_is_sequence. Qed.
 Print Assumptions combined_conversion_is_sequence.
 
-(* histories of calls that name a representation (mode+unit / basis+unit / temperature unit K or degC):
-   partial with respect to the property's quantifier, which also admits calls omitting the unit - see the refuted items *)
+(* histories of calls that name a representation (mode+unit / basis+unit / temperature unit K or degC): no call is refused.
+   Partial with respect to the property's quantifier; the full quantifier is history_arbitrary_strings below *)
 Theorem history_direct_partial : forall psat M rml rmg dens mm TK,
   0 < psat -> 0 < M -> 0 < rml -> 0 < rmg -> 0 < dens -> 0 < mm -> TK <> 0 ->
   forall (r0 : rs) (cp0 cl0 : list R) (cb : list bool) (a : adsorbate RNum), ads_full_at a TK psat M rml rmg ->
@@ -97,6 +98,107 @@ Theorem history_back_restores_partial : forall psat M rml rmg dens mm TK,
   /\ col_branch (run_ops s0 (ops ++ back)%list) = cb.
 Proof. exact history_back_restores. Qed.
 Print Assumptions history_back_restores_partial.
+
+(* ---------------------------------------------------------------------------------------------------------------------
+   Histories of calls with ARBITRARY argument strings (the property's full quantifier: omitted / empty / repeated / impossible
+   / garbage arguments, single-quantity calls and the combined convert()).  Iso/C02General.v:
+     gop        a call with its raw `option string` arguments (GP GL GM GT, GC = convert());  apply_gop = the GENERATED method
+     resolve    the explicit reference semantics on representations (rs), by string matching: which calls are refused, what the
+                accepted ones name (omitted / empty mode or basis = current; omitted unit with unchanged basis = current;
+                relative / relative% / fraction / percent ignore the unit argument; 'c' in the lower-cased string = Celsius;
+                a material unit must always be a unit of the target basis; ...)
+     Rep r s    (Iso/C02Theorems.v) s holds the ORIGINAL data converted directly to the representation r and its labels name r *)
+Theorem history_arbitrary_strings : forall psat M rml rmg dens mm TK,
+  0 < psat -> 0 < M -> 0 < rml -> 0 < rmg -> 0 < dens -> 0 < mm -> TK <> 0 ->
+  forall (a : adsorbate RNum), ads_full_at a TK psat M rml rmg ->
+  forall (r0 : rs) (cp0 cl0 : list R) (cb : list bool) (T : R) (li pi : option (cache RNum)) (ops : list gop),
+  kelvin_of (r_k r0) T = TK ->
+  let s0 := mk_state (r_p r0) (r_l r0) (r_m r0) (r_k r0) T a (mat_full dens mm) cp0 cl0 cb li pi in
+  (* every call of the history: refused exactly when the reference semantics says so; a refused single-quantity call changes
+     nothing; every call is the sequence of its steps (convert(): pressure, material, loading) run until the first refusal *)
+  (forall pre o post, ops = (pre ++ o :: post)%list ->
+     let s := run_gops s0 pre in let r := ref_gops r0 pre in
+     (outcome (apply_gop s o) = None <-> snd (resolve r o) = true)
+     /\ (is_single o = true -> forall e, outcome (apply_gop s o) = Some e -> state_after (apply_gop s o) = s)
+     /\ apply_gop s o = run_seq s (steps o))
+  (* the final state: original data converted directly to the resolved representation, labels naming it, constructor-valid *)
+  /\ Rep psat M rml rmg dens mm TK r0 cp0 cl0 cb a (ref_gops r0 ops) (run_gops s0 ops)
+  /\ valid_labels (run_gops s0 ops) = true.
+Proof. exact history_general. Qed.
+Print Assumptions history_arbitrary_strings.
+(* one call (single or combined) from ANY state of the invariant: the induction step *)
+Theorem one_call_arbitrary_strings : forall psat M rml rmg dens mm TK,
+  0 < psat -> 0 < M -> 0 < rml -> 0 < rmg -> 0 < dens -> 0 < mm -> TK <> 0 ->
+  forall (a : adsorbate RNum), ads_full_at a TK psat M rml rmg ->
+  forall (r0 : rs) (cp0 cl0 : list R) (cb : list bool) (r : rs) (s : iso RNum) (o : gop),
+  Rep psat M rml rmg dens mm TK r0 cp0 cl0 cb a r s ->
+  Rep psat M rml rmg dens mm TK r0 cp0 cl0 cb a (fst (resolve r o)) (state_after (apply_gop s o))
+  /\ (outcome (apply_gop s o) = None <-> snd (resolve r o) = true).
+Proof. exact gstep. Qed.
+Print Assumptions one_call_arbitrary_strings.
+(* converting back to the starting representation restores the original numbers, after ANY history of calls with ANY strings *)
+Theorem history_arbitrary_strings_back_restores : forall psat M rml rmg dens mm TK,
+  0 < psat -> 0 < M -> 0 < rml -> 0 < rmg -> 0 < dens -> 0 < mm -> TK <> 0 ->
+  forall (a : adsorbate RNum), ads_full_at a TK psat M rml rmg ->
+  forall (r0 : rs) (cp0 cl0 : list R) (cb : list bool) (T : R) (li pi : option (cache RNum)) (ops : list gop),
+  kelvin_of (r_k r0) T = TK ->
+  let s0 := mk_state (r_p r0) (r_l r0) (r_m r0) (r_k r0) T a (mat_full dens mm) cp0 cl0 cb li pi in
+  let back := [OpP (r_p r0); OpM (r_m r0); OpL (r_l r0); OpT (r_k r0)] in
+  col_p (run_ops (run_gops s0 ops) back) = cp0 /\ col_l (run_ops (run_gops s0 ops) back) = cl0
+  /\ col_branch (run_ops (run_gops s0 ops) back) = cb.
+Proof. exact history_general_back_restores. Qed.
+Print Assumptions history_arbitrary_strings_back_restores.
+(* repaired by "fix: convert_material checks the unit it stores on a fraction/percent isotherm" (before, the string was stored
+   unchecked and the isotherm could not be converted back): on a fraction / percent isotherm, naming the current material basis
+   (or none) with a string that is no unit of it is refused and changes nothing - for ALL such states and ALL strings *)
+Theorem unknown_material_unit_is_refused_on_fraction_isotherms : forall (s : iso RNum) (t : mbasis) b u vb,
+  ostr_in (loading_basis s) [Some "percent"; Some "fraction"]%string = true -> material_basis s = mb_label t ->
+  ostr_truthy b = false \/ b = material_basis s ->
+  ostr_truthy u = true -> ostr_eqb u (material_unit s) = false -> tbl_mem u (munits t) = false ->
+  convert_material RNum s b u vb = SErr ParameterError s.
+Proof. exact unknown_material_unit_refused_on_fraction. Qed.
+Print Assumptions unknown_material_unit_is_refused_on_fraction_isotherms.
+(* convert(): a refusal leaves exactly the effect of the steps completed before it - for ALL states and ALL strings *)
+Theorem combined_refusal_keeps_completed_steps : forall (s : iso RNum) pm pu lb lu mb mu e,
+  outcome (convert RNum s pm pu lb lu mb mu false) = Some e ->
+  exists pre o post s', steps (GC pm pu lb lu mb mu) = (pre ++ o :: post)%list /\ run_seq s pre = SOk s'
+     /\ outcome (apply_gop s' o) = Some e /\ state_after (convert RNum s pm pu lb lu mb mu false) = s'.
+Proof. exact convert_refusal_keeps_completed. Qed.
+Print Assumptions combined_refusal_keeps_completed_steps.
+
+(* strings that name no representation and are accepted nevertheless (explicit in `resolve`; the label is normalised);
+   a material unit, on the contrary, is always checked *)
+Example accepted_strings_naming_nothing :
+  (resolve_t (Some "kcal") = Some false
+  /\ resolve_p PRel (Some "relative%") (Some "bogus") = Some PRelPct
+  /\ resolve_p PRel None (Some "torr") = Some PRel
+  /\ resolve_l (LMolar mmol) (Some "fraction") (Some "bogus") = Some LFraction
+  /\ resolve_l LFraction None (Some "bogus") = Some LFraction
+  /\ resolve_m (MMass g) (Some "") (Some "bogus") = None)%string.
+Proof. exact accepted_strings_that_name_nothing. Qed.
+(* the history that used to end in an isotherm that could not be converted back is now stopped at its third call *)
+Example formerly_unchecked_history :
+  accepted (mkRS (PAbs bar) (LMolar mmol) (MMass g) true)
+    [GL (Some "fraction") None; GM (Some "volume") (Some "cm3"); GM None (Some "bogus")]%string = [true; true; false]
+  /\ ref_gops (mkRS (PAbs bar) (LMolar mmol) (MMass g) true)
+    [GL (Some "fraction") None; GM (Some "volume") (Some "cm3"); GM None (Some "bogus")]%string = mkRS (PAbs bar) LFraction (MVol cm3) true.
+Proof. exact former_unchecked_history. Qed.
+(* a concrete mixed history (no-op, ignored unit, refused, empty basis, Celsius alias, garbage, refused material unit in percent
+   mode, convert() stopping at its material step, full convert()) evaluated by the reference semantics *)
+Example mixed_history :
+  let ops := [GP None None; GP (Some "relative") (Some "bogus"); GL (Some "mass") None; GL (Some "mass") (Some "mg");
+              GM (Some "") (Some "kg"); GT (Some "Celsius"); GT (Some "bogus"); GL (Some "percent") (Some "bogus");
+              GM None (Some "furlong"); GL (Some "molar") (Some "mmol"); GM (Some "mass") (Some "g");
+              GC None (Some "torr") (Some "molar") (Some "mol") (Some "volume") (Some "furlong");
+              GC (Some "absolute") (Some "torr") (Some "molar") (Some "mol") (Some "volume") (Some "cm3")]%string in
+  accepted (mkRS (PAbs bar) (LMolar mmol) (MMass g) true) ops
+    = [true; true; false; true; true; true; false; true; false; true; true; false; true]
+  /\ ref_gops (mkRS (PAbs bar) (LMolar mmol) (MMass g) true) ops = mkRS (PAbs torr) (LMolar mol) (MVol cm3) false.
+Proof. exact mixed_history_resolved. Qed.
+Example arbitrary_strings_hypotheses_satisfiable :
+  0 < 101325 /\ 0 < 28 /\ 0 < 0.03 /\ 0 < 0.0002 /\ 0 < 2 /\ 0 < 60 /\ 77 <> 0 /\ kelvin_of true 77 = 77
+  /\ ads_full_at (ads_full 101325 28 0.03 0.0002) 77 101325 28 0.03 0.0002.
+Proof. exact general_hypotheses_satisfiable. Qed.
 
 (* calls that omit the unit while keeping (or omitting) the mode / basis: a no-op for ALL states
    (repaired in /repo by "fix: omitting the unit ..."; before the fix the unit label became None) *)
